@@ -36,10 +36,10 @@ def inU(S, uni, w):
 class Env:
     """the symbols of one traversal instance"""
 
-    def __init__(self, S, ct, args):
+    def __init__(self, S, ct, args, start_key="start"):
         self.S, self.ct = S, ct
         self.uni = args["uni"].term
-        self.start = args["start"].term
+        self.start = args[start_key].term
         self.d = args["direction_sensitive"].term if "direction_sensitive" in args else z3.IntVal(0)
         self.u = args["unknown_handling"].term if "unknown_handling" in args else z3.IntVal(2)
         self.fv = args["ff_via"].term if "ff_via" in args else NONE
@@ -179,31 +179,11 @@ def _(c):
     cache_only_effects(o, S)
 
 
-def _bfs_outer(L, E: Env, vis, queue, with_out=True):
-    """invariant of the `while queue` loop of ibft / bfs; ghost: $K pops so far, $done the popped prefix of A($K)"""
+def bfs_outer_inv(L, E: Env, with_out=True, extra=lambda acc: []):
+    """invariant of the `while queue` loop of ibft / bfs: the program is the canonical BFS machine after $K expansions:
+    A($K) = $done ++ queue, visited = set(A($K)) (and yielded = filter(A($K)))"""
     S = L.st
-    if L.phase in ("entry",):
-        k, done = z3.IntVal(0), EMPTY()
-    elif L.phase == "assume":
-        k, done = L.k, T.fresh("done", RSeq)
-    else:   # check: one more vertex has been expanded
-        k = L.env["$K"].term + 1
-        done = snoc(L.env["$done"].term, L.env["u"].term)
-    Ak = E.A(k)
-    qexpr = T.fresh("queue_rest", RSeq) if L.phase == "assume" else None
-    facts, defs = [], E.A_defs()
-    if L.phase == "assume":
-        facts += [Ak == cat(done, qexpr), Len(done) == k, k >= 0]
-        qv = qexpr
-    else:
-        qv = None
-    return k, done, Ak, qv, facts, defs
-
-
-@REG.loop("breadthfirst.ibft", 0)
-def _(L):
-    E = Env(L.st, L.engine.ct, L.args)
-    S = L.st
+    ct = L.engine.ct
     vis, queue = L.env["visited"].ref, L.env["queue"].ref
     if L.phase == "entry":
         k, done = z3.IntVal(0), EMPTY()
@@ -224,8 +204,7 @@ def _(L):
         facts += [Ak == cat(done, q), Len(done) == k]
         elems_c = lambda new: [Schema("queue-content", (Ref,), lambda r: Implies(r == queue, new(r) == q), trigger=("elems",))]
     else:
-        # witness: the queue as it is now
-        q = cur.elems(queue)
+        q = cur.elems(queue)          # witness: the queue as it is now
         facts += [Ak == cat(done, q), Len(done) == k]
         if L.phase == "check":
             # definitional step of the machine for the vertex just expanded: A(k0) = done0 ++ [u] ++ rest
@@ -235,19 +214,17 @@ def _(L):
             defs.append(g_)
             sdefs.append(sch_)
         elems_c = None
-    inv = LoopInv(state=st, facts=facts, ground_defs=defs, defs=sdefs,
-                  define={"$K": VInt(k), "$done": VSeq(done)},
-                  loose=loop_cache_loose(elems_c, (queue, vis)), out=Flt(E.fr, Ak),
-                  schemas=[Schema("listed-vertices-are-in-universe-vertices", (Ref,), lambda x: Implies(
-                      Mem(Ak, x), And(x != NONE, L.engine.ct.is_a(x, "Vertex")))),
-                      Schema("listing-duplicate-free", (Ref,), lambda x: Cnt(Ak, x) <= 1)])
-    return inv
+    return LoopInv(state=st, facts=facts, ground_defs=defs, defs=sdefs,
+                   define={"$K": VInt(k), "$done": VSeq(done)},
+                   loose=loop_cache_loose(elems_c, (queue, vis)), out=(Flt(E.fr, Ak) if with_out else None),
+                   schemas=[Schema("listed-vertices-are-in-universe-vertices", (Ref,), lambda x: Implies(
+                       Mem(Ak, x), And(x != NONE, ct.is_a(x, "Vertex")))),
+                       Schema("listing-duplicate-free", (Ref,), lambda x: Cnt(Ak, x) <= 1)] + extra(Ak))
 
 
-@REG.loop("breadthfirst.ibft", 1)
-def _(L):
-    E = Env(L.st, L.engine.ct, L.args)
+def bfs_inner_inv(L, E: Env, with_out=True, extra=lambda acc: []):
     S = L.st                       # heap when the scan of u's neighbours starts
+    ct = L.engine.ct
     vis, queue = L.env["visited"].ref, L.env["queue"].ref
     k = L.env["$K"].term
     Ak = E.A(k)
@@ -257,11 +234,29 @@ def _(L):
     st = S.copy()
     st.write_where("setmem", lambda ad: (T.eq(ad[0], vis), Mem(acc, ad[1])))
     defs = E.np_defs(L.prefix, Ak) + E.np_defs(EMPTY(), Ak)
+    if L.elem is not None and "u" in L.env:
+        # congruence instance (valid formula): the scanned list is N(u), so the current element occurs in N(u) as often
+        Nu = E.N(L.env["u"].term)
+        defs.append(Implies(L.seq == Nu, Cnt(Nu, L.elem) == Cnt(L.seq, L.elem)))
     elems_c = lambda newr: [Schema("queue-content", (Ref,), lambda r: Implies(r == queue, newr(r) == cat(rest, new)), trigger=("elems",))]
-    return LoopInv(state=st, ground_defs=defs, loose=loop_cache_loose(elems_c, (queue, vis)), out=Flt(E.fr, acc),
+    define = {"$P": VSeq(L.prefix), "$rest": VSeq(rest)}
+    if getattr(L, "suffix", None) is not None:
+        define["$SUF"] = VSeq(L.suffix)
+    return LoopInv(state=st, ground_defs=defs, loose=loop_cache_loose(elems_c, (queue, vis)),
+                   out=(Flt(E.fr, acc) if with_out else None), define=define,
                    schemas=[Schema("listed-vertices-are-in-universe-vertices", (Ref,), lambda x: Implies(
-                       Mem(acc, x), And(x != NONE, L.engine.ct.is_a(x, "Vertex")))),
-                       Schema("listing-duplicate-free", (Ref,), lambda x: Cnt(acc, x) <= 1)])
+                       Mem(acc, x), And(x != NONE, ct.is_a(x, "Vertex")))),
+                       Schema("listing-duplicate-free", (Ref,), lambda x: Cnt(acc, x) <= 1)] + extra(acc))
+
+
+@REG.loop("breadthfirst.ibft", 0)
+def _(L):
+    return bfs_outer_inv(L, Env(L.st, L.engine.ct, L.args))
+
+
+@REG.loop("breadthfirst.ibft", 1)
+def _(L):
+    return bfs_inner_inv(L, Env(L.st, L.engine.ct, L.args))
 
 
 def list_form(gen_qualname):
@@ -290,3 +285,238 @@ def list_form(gen_qualname):
 
 
 REG.contract("breadthfirst.bft", FUNC_PARAMS, props=("C06", "C07", "C12"))(list_form("breadthfirst.ibft"))
+
+
+# =============================================================================================== depth first, explicit stack
+
+
+@contract("depthfirst._df_preflight_checks", "uni:Universe?, start:Vertex", props=("C06", "C07", "C08", "C13"))
+def _(c):
+    S = c.S
+    c.assume_inv(TY_unis(S, c.ct))
+    bad = And(c.uni != NONE, Or(Len(S.members(c.uni)) == 0, Not(Mem(S.members(c.uni), c.start))))
+    c.raises("ValueError", when=bad, label="empty-or-start-outside")
+    c.normal(when=Not(bad))          # nothing changes (the list built by uni.vertices is garbage)
+
+
+def dfsi_defs(E: Env):
+    z = z3.IntVal(0)
+    return [E.DS_(*E.key, z) == unit(E.start), E.DD_(*E.key, z) == EMPTY(), T.flt(E.fr, E.DD_(*E.key, z)) == EMPTY()]
+
+
+def dfsi_step(E: Env, k, rest, v):
+    """DS(k) = rest ++ [v]  ==>  the machine pops v: already discovered or outside the universe -> dropped,
+    else discovered and its neighbours (in order) pushed.  -> (ground facts, count schemas)"""
+    DS, DD = (lambda n: E.DS_(*E.key, n)), (lambda n: E.DD_(*E.key, n))
+    cond = DS(k) == cat(rest, unit(v))
+    skip = Or(Mem(DD(k), v), Not(E.inU(v)))
+    ds1 = ite(skip, rest, cat(rest, E.N(v)))
+    dd1 = ite(skip, DD(k), snoc(DD(k), v))
+    g = [Implies(cond, DS(k + 1) == ds1), Implies(cond, DD(k + 1) == dd1),
+         Implies(cond, T.flt(E.fr, DD(k + 1)) == ite(skip, T.flt(E.fr, DD(k)), cat(T.flt(E.fr, DD(k)), Flt(E.fr, unit(v)))))]
+    sch = [Schema("DFSi-step-count", (Ref,), lambda y: Implies(cond, And(Cnt(DS(k + 1), y) == Cnt(ds1, y),
+                                                                         Cnt(DD(k + 1), y) == Cnt(dd1, y))))]
+    return g, sch
+
+
+@contract("depthfirst.idft_iterative", FUNC_PARAMS, is_generator=True, props=("C06", "C07"), shards=4)
+def _(c):
+    E = Env(c.S, c.ct, c.args)
+    S = c.S
+    wellformed(c, E)
+    bad = And(E.uni != NONE, Or(Len(S.members(E.uni)) == 0, Not(Mem(S.members(E.uni), E.start))))
+    c.raises("ValueError", when=bad, label="empty-or-start-outside")
+    o = c.normal(when=Not(bad), label="listing")
+    K = c.ghost("K", Int)
+    o.out(Flt(E.fr, E.DD_(*E.key, K)))
+    o.fact(E.DS_(*E.key, K) == EMPTY())
+    o.fact(K >= 1)
+    cache_only_effects(o, S)
+
+
+@REG.loop("depthfirst.idft_iterative", 0)
+def _(L):
+    E = Env(L.st, L.engine.ct, L.args)
+    S = L.st
+    ct = L.engine.ct
+    stack, disc = L.env["stack"].ref, L.env["discovered"].ref
+    if L.phase == "entry":
+        k = z3.IntVal(0)
+    elif L.phase == "assume":
+        k = L.k
+    else:
+        k = L.env["$K"].term + 1
+    DSk, DDk = E.DS_(*E.key, k), E.DD_(*E.key, k)
+    defs, sdefs = dfsi_defs(E), []
+    if L.phase == "check":
+        v, rest = L.pghost["last_pop"]
+        g, sch = dfsi_step(E, L.env["$K"].term, rest, v)
+        defs += g
+        sdefs += sch
+    elems_c = lambda new: [Schema("stack-and-discovered", (Ref,), lambda r: And(Implies(r == stack, new(r) == DSk),
+                                                                                 Implies(r == disc, new(r) == DDk)), trigger=("elems",))]
+    return LoopInv(facts=[k >= 0], ground_defs=defs, defs=sdefs, define={"$K": VInt(k)},
+                   loose=loop_cache_loose(elems_c, (stack, disc)), out=Flt(E.fr, DDk),
+                   schemas=[Schema("stacked-and-discovered-are-vertices", (Ref,), lambda x: Implies(
+                       Or(Mem(DSk, x), Mem(DDk, x)), And(x != NONE, ct.is_a(x, "Vertex")))),
+                       Schema("discovered-duplicate-free", (Ref,), lambda x: Cnt(DDk, x) <= 1)])
+
+
+@REG.loop("depthfirst.idft_iterative", 1)
+def _(L):
+    E = Env(L.st, L.engine.ct, L.args)
+    S = L.st                       # heap when the neighbours of v start being pushed
+    ct = L.engine.ct
+    stack, disc = L.env["stack"].ref, L.env["discovered"].ref
+    rest, dd = S.elems(stack), S.elems(disc)
+    elems_c = lambda new: [Schema("stack-and-discovered", (Ref,), lambda r: And(Implies(r == stack, new(r) == cat(rest, L.prefix)),
+                                                                                 Implies(r == disc, new(r) == dd)), trigger=("elems",))]
+    return LoopInv(loose=loop_cache_loose(elems_c, (stack, disc)))
+
+
+REG.contract("depthfirst.dft_iterative", FUNC_PARAMS, props=("C06", "C07", "C12"))(list_form("depthfirst.idft_iterative"))
+
+
+# =============================================================================================== depth first, recursive
+
+RECUR_PARAMS = ("uni:Universe?, v:Vertex, *, visited:dict, direction_sensitive:int, unknown_handling:int, "
+                "ff_via:cb:ff2=None, ff_result:cb:ffr=None")
+
+
+def dfo(E: Env, x, V):
+    return E.dfo_(E.uni, E.d, E.u, E.fv, x, V)
+
+
+def dff(E: Env, p, x, V):
+    return E.dff_(E.uni, E.d, E.u, E.fv, p, x, V)
+
+
+def dfr_defs(E: Env, prefix, x, V):
+    """unfolding of the recursive pre-order: dff([], x, V) = [x];  dff(p ++ [w]) = r ++ dfo(w, V ++ r) if w is an
+    in-universe vertex not yet visited (not in V ++ r), else r;  dfo(x, V) = dff(N(x), x, V)"""
+    fr = E.fr
+    out = [dff(E, EMPTY(), x, V) == unit(x), T.flt(fr, dff(E, EMPTY(), x, V)) == Flt(fr, unit(x)),
+           dfo(E, x, V) == dff(E, E.N(x), x, V)]
+    sch = [Schema("dfr-base-count", (Ref,), lambda y: Cnt(dff(E, EMPTY(), x, V), y) == T.b2i(T.eq(x, y)))]
+    parts = T._flat(prefix)
+    if parts and T._is_unit(parts[-1]) and not T._is_empty(prefix):
+        w = parts[-1].arg(0)
+        head = cat(*parts[:-1])
+        r = dff(E, head, x, V)
+        take = And(E.inU(w), Not(Mem(V, w)), Not(Mem(r, w)))
+        sub = dfo(E, w, cat(V, r))
+        out.append(dff(E, prefix, x, V) == If(take, cat(r, sub), r))
+        out.append(T.flt(fr, dff(E, prefix, x, V)) == If(take, cat(T.flt(fr, r), T.flt(fr, sub)), T.flt(fr, r)))
+        sch.append(Schema("dfr-step-count", (Ref,), lambda y: Cnt(dff(E, prefix, x, V), y) == If(take, Cnt(r, y) + Cnt(sub, y), Cnt(r, y))))
+    return out, sch
+
+
+@contract("depthfirst._dft_recur", RECUR_PARAMS, is_generator=True, props=("C06", "C07"), shards=2)
+def _(c):
+    E = Env(c.S, c.ct, c.args, start_key="v")
+    S = c.S
+    wellformed(c, E)
+    vis = c.val("visited").ref
+    V = S.read("dkeys", vis)
+    c.requires(vis != NONE, "visited-is-a-dict")
+    c.requires(Not(Mem(V, E.start)), "v-not-yet-visited")
+    o = c.normal()
+    o.set("dkeys", vis, cat(V, dfo(E, E.start, V)))
+    o.out(T.flt(E.fr, dfo(E, E.start, V)))
+    cache_only_effects(o, S)
+
+
+@REG.loop("depthfirst._dft_recur", 0)
+def _(L):
+    E = Env(L.st, L.engine.ct, L.args, start_key="v")
+    S = L.st
+    vis = L.args["visited"].ref
+    V0 = L.pre.read("dkeys", vis)                   # visited keys when the call started
+    x = E.start
+    r = dff(E, L.prefix, x, V0)
+    st = S.copy()
+    st.write("dkeys", vis, cat(V0, r))
+    defs, sdefs = dfr_defs(E, L.prefix, x, V0)
+    return LoopInv(state=st, ground_defs=defs, defs=sdefs, loose=loop_cache_loose(None), out=T.flt(E.fr, r))
+
+
+@contract("depthfirst.idft_recursive", FUNC_PARAMS, is_generator=True, props=("C06", "C07"))
+def _(c):
+    E = Env(c.S, c.ct, c.args)
+    S = c.S
+    wellformed(c, E)
+    bad = And(E.uni != NONE, Or(Len(S.members(E.uni)) == 0, Not(Mem(S.members(E.uni), E.start))))
+    c.raises("ValueError", when=bad, label="empty-or-start-outside")
+    o = c.normal(when=Not(bad), label="listing")
+    o.out(T.flt(E.fr, dfo(E, E.start, EMPTY())))
+    cache_only_effects(o, S)
+
+
+REG.contract("depthfirst.dft_recursive", FUNC_PARAMS, props=("C06", "C07", "C12"))(list_form("depthfirst.idft_recursive"))
+
+
+# =============================================================================================== searches (C08)
+
+SEARCH_PARAMS = "uni:Universe?, start:Vertex, attrib:str, val:any"
+
+
+def match(S, x, attrib, val):
+    """the vertex has the named attribute with a value equal (==) to the one sought; nothing else about x matters"""
+    from pyvc.ops import py_eq
+    has = Or(S.read("dyn_has", x, attrib), T.cls_has(T.cls_of(x), attrib))
+    got = ite(S.read("dyn_has", x, attrib), S.read("dyn_val", x, attrib), T.cls_get(x, attrib))
+    return And(has, py_eq(got, val))
+
+
+def search_env(S, ct, args):
+    a = dict(args)
+    return Env(S, ct, a)
+
+
+def nomatch(S, seq, attrib, val, name="nothing-listed-so-far-matches"):
+    return Schema(name, (Ref,), lambda x: Implies(Mem(seq, x), Not(match(S, x, attrib, val))))
+
+
+@contract("breadthfirst.bfs", SEARCH_PARAMS, props=("C08",), shards=4)
+def _(c):
+    E = search_env(c.S, c.ct, c.args)
+    S = c.S
+    wellformed(c, E)
+    attrib, val = c.attrib, c.val("val").term
+    empty = And(E.uni != NONE, Len(S.members(E.uni)) == 0)
+    outside = And(E.uni != NONE, Not(empty), Not(Mem(S.members(E.uni), E.start)))
+    m0 = match(S, E.start, attrib, val)
+    c.normal(when=empty, result=NONE_V, label="empty-universe")
+    c.raises("ValueError", when=outside, label="start-outside-universe")
+    c.normal(when=And(Not(empty), Not(outside), m0), result=VRef(E.start, "Vertex"), label="start-matches")
+    # the search drives the canonical BFS machine; ghosts describe where it stopped
+    K = c.ghost("K", Int)
+    done, rest, P, SUF = c.ghost("done", RSeq), c.ghost("rest", RSeq), c.ghost("P", RSeq), c.ghost("SUF", RSeq)
+    U = c.ghost("u", Ref)
+    res = c.ghost("$result", Ref)
+    o = c.normal(when=And(Not(empty), Not(outside), Not(m0)), label="searched")
+    o.result(VRef(res, "Vertex"))
+    listed = cat(E.A(K), E.np(P, E.A(K)))
+    o.fact(Or(
+        # nothing matches: the machine ran to completion
+        And(res == NONE, Len(E.A(K)) == K),
+        # or: U = A(K)[K] is being expanded, res is the neighbour examined next, in the universe, and it matches
+        And(res != NONE, E.A(K) == cat(done, unit(U), rest), Len(done) == K, E.N(U) == cat(P, unit(res), SUF),
+            E.inU(res), match(S, res, attrib, val))))
+    o.fact_schema(Schema("nothing-listed-before-matches", (Ref,), lambda x: Implies(
+        Mem(ite(res == NONE, E.A(K), listed), x), Not(match(S, x, attrib, val)))))
+    cache_only_effects(o, S)
+
+
+@REG.loop("breadthfirst.bfs", 0)
+def _(L):
+    E = search_env(L.st, L.engine.ct, L.args)
+    attrib, val = L.args["attrib"].term, L.args["val"].term
+    return bfs_outer_inv(L, E, with_out=False, extra=lambda acc: [nomatch(L.st, acc, attrib, val)])
+
+
+@REG.loop("breadthfirst.bfs", 1)
+def _(L):
+    E = search_env(L.st, L.engine.ct, L.args)
+    attrib, val = L.args["attrib"].term, L.args["val"].term
+    return bfs_inner_inv(L, E, with_out=False, extra=lambda acc: [nomatch(L.st, acc, attrib, val)])
